@@ -29,7 +29,7 @@ type Act struct {
 	AtMs int    // offset from the start of the (first) suspicion
 	Kind string // confirm | refute | resuspect | dead | leave | rejoin
 	From int    // confirm/resuspect/dead: peer index; -1 original accuser; -2 local node; -3 the subject; -4 unknown name
-	Old  bool   `json:",omitempty"` // confirm at an older incarnation (must be ignored)
+	Old  bool   `json:",omitempty"` // confirm / dead / leave at an older incarnation (must be ignored)
 }
 
 type Plan struct {
@@ -116,6 +116,10 @@ func genPlan(t *rapid.T) Plan {
 		a.From = rapid.OneOf(rapid.IntRange(0, 7), rapid.IntRange(-4, 7)).Draw(t, "from")
 		if a.Kind == "confirm" {
 			a.Old = rapid.IntRange(0, 7).Draw(t, "old") == 0
+		}
+		if a.Kind == "dead" || a.Kind == "leave" {
+			// a stale death / leave notice (older incarnation than the node holds) must be ignored altogether
+			a.Old = rapid.IntRange(0, 2).Draw(t, "oldd") == 0
 		}
 		p.Script = append(p.Script, a)
 	}
@@ -395,11 +399,23 @@ func run(pl Plan) (res vfx.Result) {
 			if from == "x" {
 				from = "acc"
 			}
+			if a.Old && curInc > 0 {
+				p.Net.SendFrom(src, p.Addr(), p.Outer(puppet.Claim{Kind: "dead", Node: "x", Inc: curInc - 1, From: from}.Leaf()))
+				labels["stale-death-notice"] = true
+				logf("+%dms stale dead inc %d from %s (ignored)", a.AtMs, curInc-1, from)
+				continue
+			}
 			p.Net.SendFrom(src, p.Addr(), p.Outer(puppet.Claim{Kind: "dead", Node: "x", Inc: curInc, From: from}.Leaf()))
 			if !isDead {
 				die(arr, "foreign death claim")
 			}
 		case "leave":
+			if a.Old && curInc > 0 {
+				p.Net.SendFrom(src, p.Addr(), p.Outer(puppet.Claim{Kind: "left", Node: "x", Inc: curInc - 1}.Leaf()))
+				labels["stale-leave-notice"] = true
+				logf("+%dms stale leave inc %d (ignored)", a.AtMs, curInc-1)
+				continue
+			}
 			p.Net.SendFrom(src, p.Addr(), p.Outer(puppet.Claim{Kind: "left", Node: "x", Inc: curInc}.Leaf()))
 			if !isDead {
 				die(arr, "leave")
